@@ -162,6 +162,17 @@ func (mq *MessageQueue) runQueue() {
 	}()
 	mq.eventPublisher.Startup()
 	for {
+		if verifhook.Enabled {
+			// when work is pending and the queue was shut down at the same time,
+			// select picks at random; under simulation pending work goes first
+			select {
+			case <-mq.outgoingWork:
+				verifhook.Yield("messagequeue.beforeSendMessage", string(mq.p), mq.network)
+				mq.sendMessage()
+				continue
+			default:
+			}
+		}
 		select {
 		case <-mq.outgoingWork:
 			if verifhook.Enabled {
